@@ -98,14 +98,24 @@ def kind_of(arr):
     return np.asarray(arr).dtype.kind
 
 
-def compare_results(ref: pd.DataFrame, got: pd.DataFrame, key_ref, key_got, ulps=0, check_dtype=True, skip=()):
+def compare_results(ref: pd.DataFrame, got: pd.DataFrame, key_ref, key_got, ulps=0, check_dtype=True, skip=(), row_scale=False):
     """Compare two result frames keyed by person; id columns as partitions.
+
+    `row_scale`: the float tolerance (`ulps`) is taken at the largest magnitude among the person's float values instead of at the value
+    itself.  A re-associated group sum differs by an ulp of the SUMMANDS' magnitude; a later subtraction (need minus income) keeps that
+    absolute error while the value shrinks, so a tolerance relative to the small result would flag legitimate re-association.
 
     Returns a list of (column, kind, detail) differences.
     """
     diffs = []
     pos_ref = {k: i for i, k in enumerate(key_ref)}
     order = [pos_ref[k] for k in key_got]
+    scale = None
+    if row_scale and ulps:
+        fl = [c for c in ref.columns if c in got.columns and ref[c].to_numpy().dtype.kind == "f" and not c.endswith("_id")]
+        if fl:
+            m = np.abs(np.nan_to_num(np.column_stack([ref[c].to_numpy()[order] for c in fl]).astype(float), nan=0.0, posinf=0.0, neginf=0.0))
+            scale = m.max(axis=1)
     for c in ref.columns:
         if c in skip:
             continue
@@ -119,6 +129,9 @@ def compare_results(ref: pd.DataFrame, got: pd.DataFrame, key_ref, key_got, ulps
                 diffs.append((c, "partition", f"{a.tolist()} vs {b.tolist()}"))
             continue
         ok = col_equal(a, b, ulps)
+        if not ok.all() and scale is not None and a.dtype.kind == "f" and b.dtype.kind == "f":
+            with np.errstate(invalid="ignore"):
+                ok = ok | (np.abs(a.astype(float) - b.astype(float)) <= ulps * np.spacing(scale))
         if not ok.all():
             i = int(np.argmin(ok))
             diffs.append((c, "value", f"p_id={key_got[i]}: {a[i]!r} vs {b[i]!r}"))
